@@ -206,7 +206,9 @@ func joinScenario(r *Run, mode string) {
 	oc := RunGated(r, node, ctl, produce, metaSend, choose, 10000)
 	runErr, finished, deadlock := oc.Err, oc.Finished, oc.Deadlock
 	r.Sched(string(schedule))
-	r.AddEvents(len(outs) + wmCount)
+	if oc.Finished {
+		r.AddEvents(len(outs) + wmCount)
+	}
 	r.NonTrivial(len(scriptL)+len(scriptR) >= 2 && len(schedule) >= 3)
 	r.AddSimTime(int64(time.Duration(len(scriptL)+len(scriptR)) * time.Second))
 
